@@ -131,11 +131,29 @@ def check_root(ctx, case):
             sib = FACTORIES[case['family']][0](case['sibling'])
             xs_, _ = FACTORIES[case['family']][2](case['sibling'], dvals)
             pe.roots.find_root(arg, sib, guess=xs_)
-        res = pe.roots.find_root(arg, func, guess=guess)
+        if case.get('default_guess'):
+            ctx.count('default-guess')
+            res = pe.roots.find_root(arg, func)      # the documented default start value 1.0, wherever the root is
+        else:
+            res = pe.roots.find_root(arg, func, guess=guess)
     except Exception as e:
+        if case.get('default_guess'):
+            ctx.count('default-guess:refused')
+            return probs      # a refusal is an admissible outcome when the search does not get to the root
         return [('violation', 'find-root-exception', '%s: %s' % (type(e).__name__, str(e)[:200]))]
     fv = func(float(res.value), dvals[0] if nd == 0 else np.array(dvals))
     ctx.residual('root_residual', abs(float(fv)))
+    if case.get('default_guess') and not abs(float(fv)) <= 1e-7:
+        # known finding: the root search (MINPACK hybrd through scipy) did not get to the root from the start value and
+        # find_root does not ask; classified as such only if scipy's own answer from the same start is no root either
+        import scipy.optimize
+        import warnings as _w
+        with _w.catch_warnings():
+            _w.simplefilter('ignore')
+            x_, _info, _ier, _msg = scipy.optimize.fsolve(func, 1.0, dvals[0] if nd == 0 else np.array(dvals), full_output=True)
+        if not abs(float(func(float(x_[0]), dvals[0] if nd == 0 else np.array(dvals)))) <= 1e-7:
+            return [('violation', 'find-root-no-convergence-check', 'family %s, d = %r, default guess: returned x = %r with f(x, d) = %r (root %r); fsolve ier=%d' % (
+                case['family'], dvals, float(res.value), float(fv), xt, _ier))]
     if abs(float(fv)) > 1e-7:
         probs.append(('violation', 'not-a-root', 'f(x.value, d.value) = %r at x = %r (inverse function gives %r)' % (float(fv), float(res.value), xt)))
     probs += expect(ctx, res, xt, grads, ds, rtol=1e-7, tag='root-', vscale=max(1.0, abs(xt)))
@@ -253,7 +271,11 @@ def gen_case(ctx):
         means = gen(rng)
         n = max(nd, 1)
         exact = rng.random() < 0.5 or any(abs(m) < 1e-5 for m in means)
-        return {'what': 'root', 'family': fam, 'seed': rng.getrandbits(28), 'means': means, 'kinds': [rng.choice(kinds[1:]) for _ in range(n)],
+        dg = nd == 0 and rng.random() < 0.15
+        if dg and fam in ('exp', 'pow5', 'log'):
+            # the root far away from the default start value 1.0
+            means = [rng.choice({'exp': [3.0, 60.0, 150.0, 1000.0], 'pow5': [3.0, 1000.0], 'log': [-8.0, 0.5]}[fam])]
+        return {'default_guess': dg, 'what': 'root', 'family': fam, 'seed': rng.getrandbits(28), 'means': means, 'kinds': [rng.choice(kinds[1:]) for _ in range(n)],
                 'rel': rng.choice([0.01, 0.03]), 'exact': exact, 'guess_factor': rng.choice([1.0, 1.1, 0.9]), 'guess_shift': rng.choice([0.0, 0.05]),
                 'as_list': rng.random() < 0.5, 'int_first': rng.random() < 0.2}
     fam = rng.choice(sorted(INTS))
@@ -311,5 +333,5 @@ def run(ctx):
         ctx.case(case)
         for (kind, key, info) in check_case(ctx, case):
             (ctx.violation if kind == 'violation' else ctx.disagree)(key, {'case': case, 'info': info})
-        if len(ctx.violations) + len(ctx.disagreements) > 25:
+        if len([v for v in ctx.violations if v[0] != 'find-root-no-convergence-check']) + len(ctx.disagreements) > 25:
             break
